@@ -1,7 +1,7 @@
 //! Transform the parsed AST into a "materialized" AST, by executing functions and
 //! replacing variables. The materialized AST is "flat", in the sense that it
 //! contains no query-specific logic.
-use std::collections::HashMap;
+use std::collections::{HashMap, HashSet};
 use std::iter::zip;
 
 use enum_as_inner::EnumAsInner;
@@ -312,6 +312,21 @@ impl QueryLoader {
         for t in query.tables {
             loader.load_table(t).unwrap();
         }
+
+        // a table of the database keeps its name: a relation of the query with the same name
+        // (e.g. a declaration in a module) is the one that will get a generated name
+        let extern_names: HashSet<Ident> = (loader.context.table_decls.values())
+            .filter(|d| matches!(d.relation, RelationStatus::Defined))
+            .filter_map(|d| d.name.clone())
+            .collect();
+        for decl in loader.context.table_decls.values_mut() {
+            if !matches!(decl.relation, RelationStatus::Defined)
+                && decl.name.as_ref().is_some_and(|n| extern_names.contains(n))
+            {
+                decl.name = None;
+            }
+        }
+
         let relation = loader.fold_relation(query.relation).unwrap();
         (loader.context, relation)
     }
